@@ -24,6 +24,7 @@ import (
 	mysql_driver "github.com/go-sql-driver/mysql"
 	"github.com/rs/zerolog"
 
+	nodestate "github.com/yandex/mysync/internal/app/node_state"
 	"github.com/yandex/mysync/internal/app/resetup"
 	"github.com/yandex/mysync/internal/config"
 	"github.com/yandex/mysync/internal/dcs"
@@ -651,4 +652,73 @@ const vUUIDPrefix = "6dbc5d2c-5d88-11ee-8c99-0242ac12000"
 func hostUUID(h string) string { return vUUIDPrefix + fmt.Sprint(hostN(h)%4) }
 func gset(h string, iv string) string {
 	return hostUUID(h) + ":" + iv
+}
+
+// nsGal prints a nodestate.NodeState as the model's node_state.
+func nsGal(ns *nodestate.NodeState) string {
+	if ns == nil {
+		return "empty_ns"
+	}
+	disk := "None"
+	if ns.DiskState != nil {
+		disk = vk.Some(vk.T(vk.Z(int64(ns.DiskState.Used)), vk.Z(int64(ns.DiskState.Total))))
+	}
+	daemon := "None"
+	if ns.DaemonState != nil {
+		daemon = vk.Some(vk.T(vk.Z(nsOf(ns.DaemonState.StartTime)), vk.Z(nsOf(ns.DaemonState.RecoveryTime)), vk.B(ns.DaemonState.CrashRecovery)))
+	}
+	mg := "None"
+	if ns.MasterState != nil {
+		mg = vk.Some(vk.GtidGal(ns.MasterState.ExecutedGtidSet))
+	}
+	sl := "None"
+	if ns.SlaveState != nil {
+		s := ns.SlaveState
+		io, sql := false, false
+		ioe, sqle := int64(s.LastIOErrno), int64(s.LastSQLErrno)
+		switch s.ReplicationState {
+		case mysql.ReplicationRunning:
+			io, sql = true, true
+		case mysql.ReplicationStopped:
+			ioe, sqle = 0, 0
+		default:
+			if ioe == 0 && sqle == 0 {
+				sqle = 1
+			}
+		}
+		lag := "None"
+		if s.ReplicationLag != nil {
+			lag = vk.Some(vk.Z(int64(*s.ReplicationLag)))
+		}
+		sl = vk.Some("{| rs_source := " + hostGal(s.MasterHost) + "; rs_io := " + vk.B(io) + "; rs_sql := " + vk.B(sql) +
+			"; rs_io_errno := " + vk.Z(ioe) + "; rs_sql_errno := " + vk.Z(sqle) + "; rs_lag := " + lag +
+			"; rs_executed := " + vk.GtidGal(s.ExecutedGtidSet) + "; rs_retrieved := " + vk.GtidGal(s.RetrievedGtidSet) +
+			"; rs_file := " + vk.BinlogGal(s.MasterLogFile) + "; rs_pos := " + vk.Z(s.MasterLogPos) + " |}")
+	}
+	semi := "None"
+	if ns.SemiSyncState != nil {
+		semi = vk.Some(vk.T(vk.B(ns.SemiSyncState.MasterEnabled), vk.B(ns.SemiSyncState.SlaveEnabled), vk.Z(int64(ns.SemiSyncState.WaitSlaveCount))))
+	}
+	rset := "None"
+	if ns.ReplicationSettings != nil {
+		rset = vk.Some(vk.T(vk.Z(int64(ns.ReplicationSettings.InnodbFlushLogAtTrxCommit)), vk.Z(int64(ns.ReplicationSettings.SyncBinlog))))
+	}
+	return "{| ns_ping_ok := " + vk.B(ns.PingOk) + "; ns_ping_dubious := " + vk.B(ns.PingDubious) + "; ns_is_master := " + vk.B(ns.IsMaster) +
+		"; ns_ro := " + vk.B(ns.IsReadOnly) + "; ns_super_ro := " + vk.B(ns.IsSuperReadOnly) + "; ns_offline := " + vk.B(ns.IsOffline) +
+		"; ns_is_cascade := " + vk.B(ns.IsCascade) + "; ns_fs_ro := " + vk.B(ns.IsFileSystemReadonly) + "; ns_has_error := " + vk.B(ns.Error != "") +
+		"; ns_disk := " + disk + "; ns_daemon := " + daemon + "; ns_master_gtid := " + mg + "; ns_slave := " + sl + "; ns_semi := " + semi +
+		"; ns_repl_settings := " + rset + "; ns_check_at := " + vk.Z(nsOf(ns.CheckAt)) + " |}"
+}
+
+func statesGal(m map[string]*nodestate.NodeState) string {
+	hs := []string{}
+	for h := range m {
+		hs = append(hs, h)
+	}
+	sort.Strings(hs)
+	items := []string{}
+	for _, h := range hs {
+		items = append(items, vk.T(hostGal(h), nsGal(m[h])))
+	}
+	return vk.L(items)
 }
